@@ -295,7 +295,7 @@ func (x *X) BuildSchemas() {
 	for _, n := range x.W.Schemas {
 		id := 0
 		n.Number(&id)
-		x.Built = append(x.Built, &Built{N: n, Z: x.E.Build(n), Typ: TypeOf(n)})
+		x.Built = append(x.Built, &Built{N: n, Z: x.E.Build(n), Typ: TypeOf(n), TypRev: TypeOfRev(n)})
 	}
 }
 
